@@ -382,6 +382,45 @@ def part_histories(tier):
           viols.append(('histories:fault-delivered:%s' % '-'.join(hist), 'faulty item %s was delivered as %r' % (it, g),
                         {'part': 'histories', 'hist': list(hist)}))
           break
+  # read_until() -- the handshake's reader, which skips *valid* frames of other commands -- never skips a malformed frame
+  def chunks2(item):
+    if item == 'UNKNOWN':
+      h = bytearray(ref_header('WRTE', 1, 1, b''))
+      h[0:4] = b'STLS'
+      h[20:24] = bytes(x ^ 0xFF for x in b'STLS')
+      return [bytes(h)]
+    if item == 'SHORT':
+      return [ref_header('OKAY', 1, 1, b'')[:10]]
+    return chunks_of(item)
+
+  items2 = ['V1', 'V2', 'V0', 'BADSUM', 'EMPTY', 'UNKNOWN', 'SHORT']
+  for d in range(2, depth + 1):
+    for hist in itertools.product(items2, repeat=d):
+      if hist[-1] not in frames or all(x in frames for x in hist):
+        continue
+      want_cmd = frames[hist[-1]][0]
+      reads = [c for it in hist for c in chunks2(it)]
+      ad = am.AdbTransportAdapter(T2(reads))
+      try:
+        m = ad.read_until([want_cmd], timeouts.PolledTimeout.from_millis(1000))
+        got = ('msg', m.command, m.arg0, m.arg1, s2b(m.data))
+      except Exception as e:  # pylint: disable=broad-except
+        got = ('exc', type(e).__name__)
+      n += 1
+      exp = None
+      for it in hist:
+        if it in frames and frames[it][0] == want_cmd:
+          cmd, a0, a1, data = frames[it]
+          exp = ('msg', cmd, a0, a1, s2b(data))
+          break
+        if it not in frames:
+          exp = ('exc',)
+          break
+      outcomes.add(('until', got[0]))
+      if got[:len(exp)] != exp:
+        viols.append(('histories:read_until:%s' % '-'.join(hist), 'incoming %r, read_until([%s]) gave %r: a malformed frame in front '
+                      'of the awaited one must be rejected, not skipped (expected %r)' % (list(hist), want_cmd, got, exp),
+                      {'part': 'histories', 'hist': list(hist)}))
   return n, len(outcomes), viols, [{'history': ['V1', 'TRUNC', 'V2'], 'expected': 'msg, error, msg'}]
 
 
